@@ -191,7 +191,9 @@ func buildFixtures(seed uint64) *Fix {
 	badLeg[38] ^= 1
 	f.Leg = append(f.Leg, badLeg)
 	f.Mnem = append(f.Mnem, f.Dil[0].GetMnemonic(), f.Dil[1].GetMnemonic(),
-		"absorb absorb absorb", "notaword absorb", "", f.Mnem[0]+" "+f.Mnem[0])
+		"absorb absorb absorb", "notaword absorb", "", f.Mnem[0]+" "+f.Mnem[0],
+		// refused late: the decoder has already consumed valid words when it gives up
+		"absorb notaword", lateBad(f.Mnem[0], 1), lateBad(f.Mnem[2], 7), f.Mnem[2]+" absorb")
 	f.Desc = [][]byte{{0x01, 0x02, 0x00}, {0x12, 0x05, 0x00}, {0x0f, 0xff, 0x00}, {0x00, 0x00}, f.XPK[0][:3]}
 	for i := 0; i < maxTasks; i++ {
 		var s [48]byte
@@ -214,6 +216,15 @@ func buildFixtures(seed uint64) *Fix {
 		fmt.Fprintf(os.Stderr, "consim: note: %d memory regions are shared between distinct private key objects; their per-run copies keep sharing them\n", len(f.keep))
 	}
 	return f
+}
+
+// lateBad replaces the k-th word from the end of a mnemonic by a non-word.
+func lateBad(m string, k int) string {
+	ws := strings.Split(m, " ")
+	if len(ws) > k {
+		ws[len(ws)-k] = "notaword"
+	}
+	return strings.Join(ws, " ")
 }
 
 // sharedDigest covers every caller-owned object that tasks share.
